@@ -638,6 +638,11 @@ class MultiOrigin(Origin):
         if len(self.origins) < 2:
             raise ValueError("MultiOrigin must have at least two origin")
 
+        # Any sequence is accepted, but two multi-origins over the same origins are the same
+        # multi-origin (deserialization always yields a list)
+        if not isinstance(self.origins, list):
+            object.__setattr__(self, "origins", list(self.origins))
+
         if all(origin.source == self.origins[0].source for origin in self.origins[1:]):
             object.__setattr__(self, "source", self.origins[0].source)
         else:
